@@ -122,7 +122,7 @@ Definition is_root_frame (k : nat) (p : spec) : bool :=
    (c) and not inside a with-block whose own transaction has already ended *)
 Definition ok_end (k : nat) (p : spec) : bool :=
   negb (live k p) || is_root_frame k p || (top_is k p && negb (ctx_bad p)).
-(* (b) rollback()/close() of an ended root handle while a savepoint is live *)
+(* (b) rollback()/close()/__exit__ of an ended root handle while a savepoint is live *)
 Definition ok_dead_root (k : nat) (p : spec) : bool :=
   live k p || negb (kind_root k p) || negb (spec_in_nested p).
 
@@ -131,7 +131,8 @@ Definition gstep (o : op) (p : spec) : bool :=
   | TCommit k => ok_end k p
   | TRollback k | TClose k => ok_end k p && ok_dead_root k p
   | TEnter k => negb (existsb (Nat.eqb k) (p_ctx p))
-  | TExit k e => match p_ctx p with j :: _ => Nat.eqb j k | [] => false end && ok_end k p
+  | TExit k e =>
+      match p_ctx p with j :: _ => Nat.eqb j k | [] => false end && ok_end k p && ok_dead_root k p
   | _ => true
   end.
 
